@@ -18,7 +18,7 @@ Proof. exact radius_bridge_pts_lemma. Qed.
 Print Assumptions radius_bridge.
 
 (* FULL STRENGTH, corrected configuration: for every class, every initial grid, EVERY history of point / weight
-   reassignments, queries and selections, and every centre and finite radius, the local grid is a permutation
+   reassignments, queries, selections and descents into a selected grid (Enter), and every centre and finite radius, the local grid is a permutation
    (each point once) of [(i, p_i, w_i) | |p_i - c| <= r] over the grid's CURRENT public points and weights;
    in particular an empty sphere gives the empty local grid. *)
 Theorem query_refines_spec : forall bq cfg, oracle_ok bq -> good cfg ->
